@@ -12,6 +12,7 @@
 //!   threads  {id, srcs[], reps}                         -> one thread per source, unsynchronised, reps builds each
 //!   sched    {id, srcs[], order[]}                      -> one thread per source, stage-gated in `order`
 //!   stages   {id, src}                                  -> parse_str / pass0 / pass1 / pass2 separately, labels reported
+//!   product  {id, head, dict[], arity, pre}           -> every `head op, op, op` over the dictionary, outcomes aggregated
 //!   devices  {id}                                      -> the public DEVICES table as data
 //!   ping     {id}
 use std::collections::BTreeSet;
@@ -321,6 +322,61 @@ fn run_stages(j: &Value) -> Value {
     }
 }
 
+/// Walks the product head x operand tuples (up to `arity` operands from `dict`) for one head and
+/// aggregates outcomes per first operand; every outcome other than ok / err is listed explicitly.
+fn run_product(j: &Value) -> Value {
+    let head = s(j, "head");
+    let dict: Vec<String> = j
+        .get("dict")
+        .and_then(|v| v.as_array())
+        .map(|a| a.iter().map(|x| x.as_str().unwrap_or("").to_string()).collect())
+        .unwrap_or_default();
+    let arity = j.get("arity").and_then(|v| v.as_u64()).unwrap_or(2) as usize;
+    let pre = s(j, "pre");
+    let n = dict.len();
+    let mut groups: Vec<Value> = vec![];
+    let mut run_group = |first: Option<usize>| {
+        let mut count = 0u64;
+        let mut ok = 0u64;
+        let mut err = 0u64;
+        let mut other: Vec<Value> = vec![];
+        let mut tuples: Vec<Vec<usize>> = vec![];
+        match first {
+            None => tuples.push(vec![]),
+            Some(a) => {
+                tuples.push(vec![a]);
+                if arity >= 2 {
+                    for b in 0..n {
+                        tuples.push(vec![a, b]);
+                        if arity >= 3 {
+                            for c in 0..n {
+                                tuples.push(vec![a, b, c]);
+                            }
+                        }
+                    }
+                }
+            }
+        }
+        for t in tuples {
+            let ops: Vec<&str> = t.iter().map(|&i| dict[i].as_str()).collect();
+            let src = format!("{}{} {}\n", pre, head, ops.join(", "));
+            let r = run_str(&src);
+            count += 1;
+            match r["r"].as_str().unwrap_or("") {
+                "ok" => ok += 1,
+                "err" => err += 1,
+                x => other.push(json!({"ops": t, "outcome": x, "text": r["text"], "src": src})),
+            }
+        }
+        groups.push(json!({"first": first.map(|x| x as i64).unwrap_or(-1), "count": count, "ok": ok, "err": err, "other": other}));
+    };
+    run_group(None);
+    for a in 0..n {
+        run_group(Some(a));
+    }
+    json!({"r": "ok", "head": head, "groups": groups})
+}
+
 /// Dumps the public device table as data (capacities and feature-flag names).
 fn run_devices() -> Value {
     let mut rows: Vec<Value> = avra_lib::device::DEVICES
@@ -381,6 +437,7 @@ fn main() {
             "stages" => run_stages(&j),
             "ping" => json!({"r": "ok"}),
             "devices" => run_devices(),
+            "product" => run_product(&j),
             other => json!({"r": "tool", "text": format!("unknown job kind {}", other)}),
         };
         if watchdog > 0 {
